@@ -52,8 +52,8 @@ func init() {
 	}})
 }
 
-var c11Paths = []string{"/s1", "/s2", "/s3", "/{x}", "/u/{id: /[0-9]+/}", "/s1/t", "/{y}/t", "/f/{p: **}", "/o/?z", "/"}
-var c11GroupPaths = []string{"/g1", "/g2", "/{g}", "/api/v1", ""}
+var c11Paths = []string{"/s1", "/s2", "/s3", "/{x}", "/u/{id: /[0-9]+/}", "/s1/t", "/{y}/t", "/f/{p: **}", "/o/?z", "/", "", "s1"}
+var c11GroupPaths = []string{"/g1", "/g2", "/{g}", "/api/v1", "", "/api/", "/", "/g1/"}
 
 func genProgBody(rng *rand.Rand, depth int) []progNode {
 	n := 1 + rng.Intn(4)
